@@ -335,6 +335,23 @@ pub fn run(ctx: &Ctx) -> i32 {
         }
     });
 
+    // deeply nested inputs (operator chains of 70-300 terms, else-if chains, nested parentheses/blocks/calls/indexes)
+    let deep = crate::deep::deep_texts();
+    run_workload(ctx, &mut acc, "deep", deep.len() as u64, |k, rng, acc| {
+        let (n, t) = &deep[k as usize];
+        if check_text(&format!("deep:{}", n), t, rng, acc, 2, 6) {
+            acc.cov("deep:programs");
+        }
+    });
+    // the hostile catalogue of C04 (old-style functions, odd pragmas, literals, many definitions) as traversal inputs
+    let cat: Vec<(String, String)> = crate::mon::c04::catalogue().into_iter().filter(|(n, _)| !n.starts_with("literal-") && !n.contains(":1000") && !n.contains(":512") && !n.contains(":511")).collect();
+    run_workload(ctx, &mut acc, "catalogue", cat.len() as u64, |k, rng, acc| {
+        let (n, t) = &cat[k as usize];
+        if crate::dets::parses(t) && check_text(&format!("catalogue:{}", n), t, rng, acc, 2, 6) {
+            acc.cov("catalogue:programs");
+        }
+    });
+
     if ctx.replay.is_none() {
         let edges = acc.cov.keys().filter(|k| k.starts_with("edge:")).count();
         meta.extra.insert("distinct_edges_carrying_demanded_nodes".into(), json!(edges));
